@@ -4,6 +4,7 @@ from ..fn import World
 from ..index import AnalysisError, dotted
 from ..astutil import text, short, endswith, calls_in, walk_no_nested
 from .. import jsonshape
+from ..dataflow import DefUse
 
 EXPLANATION = (
   "Decides the chain shape of the migrations registry (versions unique, within 1..SCHEMA_VERSION, "
@@ -94,9 +95,13 @@ def r1_chain(run, w, migs):
   if ok:
     lp = loops[0]
     ver = text(lp.target)
-    ok2 = any(isinstance(c.func, ast.Call) and endswith(dotted(c.func.func), "all_migrations.get")
-              and text(c.func.args[0]) == ver for c in calls_in(lp.body)) and \
-        any(endswith(cm.name(c) or "", "migration_actions.extend") for c in calls_in(lp.body))
+    du = DefUse(cm)
+    def registered(e):
+      return isinstance(e, ast.Call) and endswith(dotted(e.func), "all_migrations.get") and \
+          e.args and text(e.args[0]) == ver
+    ok2 = any(endswith(cm.name(c) or "", "migration_actions.extend") and c.args and
+              isinstance(c.args[0], ast.Call) and du.denotes(c.args[0].func, registered)
+              for c in calls_in(lp.body))
     run.ob(R1, cm.qualname, "migration_actions.extend(all_migrations.get(version, noop)(tdset))",
            "each version's registered migration runs on the shared data set and its actions are "
            "collected", ok2, fi=cm.fi)
